@@ -14,11 +14,11 @@ from ..common import Check, Mismatch
 PROPERTY = "C07"
 RULE = ("programs over broadcast(M0>M1>M2, N) / delay{..} (optionally left by an exception) / ignore(T){..} / subscribe / "
         "unsubscribe / unsubscribe_all with three listeners, bound-method and plain-function handlers, filters (lambdas, bound methods of the listener and of a separate stateful gate object), priorities and "
-        "handler scripts that re-enter the hub (depth<=3); (i) exhaustive over flat token programs of bounded length x handler-script "
+        "handler scripts that re-enter the hub (depth<=3); message classes carry distinct names or all the same name; (i) exhaustive over flat token programs of bounded length x handler-script "
         "variants, (ii) Hypothesis-generated nested programs. Oracle: independent hub simulator; full delivery logs must be equal. "
         "Non-trivial = nested delay blocks, or an invoked handler whose script re-enters the hub, or a subscription change between "
         "two broadcasts; distinct by spec hash (random) / by construction (enumeration).")
-EXHAUSTIVE = {"quick": "flat token programs of length <=4 over 9 tokens x 8 handler-script variants",
+EXHAUSTIVE = {"quick": "flat token programs of length <=4 over 9 tokens x 8 handler-script variants; length <=3 x {distinct, identical class names} with general-then-specific subscriptions",
               "thorough": "flat token programs of length <=5 over 9 tokens x 8 handler-script variants"}
 ASSUMPTIONS = [
     "priorities of different listeners are never equal in generated programs (the statement orders different priorities only)",
@@ -137,7 +137,8 @@ class RealHub:
         self.msgcls = {}
         for c in CLASSES:
             base = Message if PARENT[c] is None else self.msgcls[PARENT[c]]
-            self.msgcls[c] = type(c, (base,), {})
+            # message classes are identified by the class object, not by its name: a plug-in may refine a message under the same name
+            self.msgcls[c] = type("Msg" if interp.same_names else c, (base,), {})
         rev = {v: k for k, v in self.msgcls.items()}
         self.rev = rev
 
@@ -241,6 +242,7 @@ class Interp:
         self.calls = 0
         self.reentered = False
         self.limit = MAX_CALLS
+        self.same_names = bool(spec.get("same_names"))
         self.hub = backend_cls(self)
 
     def on_call(self, lname, hid, cls, tag, serial):
@@ -421,7 +423,7 @@ def programs(draw):
                       draw(st.sampled_from(["m", "f"])), draw(st.sampled_from(["all", "all", "all", "even", "none", "even-gate", "odd-self"])),
                       draw(st.integers(0, 3))])
     prog = draw(st.lists(action_strategy(False), min_size=1, max_size=8))
-    return {"handlers": tolist(handlers), "setup": setup, "prog": tolist(prog)}
+    return {"handlers": tolist(handlers), "setup": setup, "prog": tolist(prog), "same_names": draw(st.booleans())}
 
 
 TOKENS = ["bM1", "bM2", "bN", "D(", "I(", ")", "subC", "unsubA", "X("]
@@ -470,6 +472,23 @@ def nest_tokens(tokens):
 def enum_programs(tier):
     maxlen = 5 if tier == "thorough" else 4
     setup = [["sub", "A", "M0", 0, "m", "all", 1], ["sub", "B", "M1", 1, "f", "all", 2], ["sub", "B", "N", 3, "m", "all", 0]]
+    # a listener subscribed to a general class first and to a refinement of it afterwards, every message class carrying the same name
+    setup2 = [["sub", "A", "M0", 0, "m", "all", 1], ["sub", "A", "M1", 2, "m", "all", 1], ["sub", "B", "M1", 1, "f", "all", 2],
+              ["sub", "B", "M2", 3, "m", "all", 0], ["sub", "B", "N", 3, "m", "all", 0]]
+    if tier != "smoke":
+        for n in range(1, 4):
+            for toks in itertools.product(TOKENS, repeat=n):
+                if toks[-1] == ")":
+                    continue
+                d = 0
+                for t in toks:
+                    d += 1 if t.endswith("(") else (-1 if t == ")" else 0)
+                    if d < 0:
+                        break
+                if d < 0:
+                    continue
+                for same in (False, True):
+                    yield {"handlers": [SCRIPTS[0], SCRIPTS[5], SCRIPTS[1], SCRIPTS[4]], "setup": setup2, "prog": nest_tokens(toks), "same_names": same}
     for n in range(1, maxlen + 1):
         for toks in itertools.product(TOKENS, repeat=n):
             if toks[-1] == ")":
